@@ -667,6 +667,13 @@ hret0() { probe 7; return 0; probe 8; }\nhret1() { probe 7; return 1; probe 8; }
                 let _ = ro.assign("0", None);
                 ro.make_read_only(yash_syntax::source::Location::dummy("ro"));
             }
+            // wave 3: an interactive case runs with the `Interactive` option ON (as `yash -i` would: the option
+            // selects the loop in `run_as_shell_process`, makes built-ins interruptible by SIGINT
+            // (execute_builtin), lets `noexec` be ignored and `exit` look at stopped jobs)
+            if interactive {
+                env.options.set(yash_env::option::Option::Interactive, yash_env::option::State::On);
+            }
+            let interactive = env.options.get(yash_env::option::Option::Interactive) == yash_env::option::State::On;
             let t = sc_tail(&mut env, &work.source, interactive).await;
             result2.set(Some(t));
         };
@@ -820,16 +827,17 @@ hret0() { probe 7; return 0; probe 8; }\nhret1() { probe 7; return 1; probe 8; }
         use super::*;
 
         #[derive(Clone, Debug)]
-        pub enum Ctl { Probe(u32), St(u32), Brk(u32), Cont(u32), Ret(Option<u32>), Exit(Option<u32>), SetE(bool), Tick(u32, u32) }
+        pub enum Ctl { Probe(u32), St(u32), Brk(u32), Cont(u32), Ret(Option<u32>), Exit(Option<u32>), SetE(bool), SetPf(bool), Tick(u32, u32) }
         #[derive(Clone, Debug)]
         pub enum NCmd {
             S(Simple), Ctl(Ctl), Grp(Redirs, Vec<NCmd>), Sub(Vec<NCmd>), If(Vec<NCmd>, Vec<NCmd>, Option<Vec<NCmd>>),
             Loop(bool, Vec<NCmd>, Vec<NCmd>), Neg(Box<NCmd>), Ao(Box<NCmd>, Vec<(bool, NCmd)>), Call(Vec<NCmd>),
+            Pipe(Vec<NCmd>), For(bool, bool, u32, Vec<NCmd>), Case(bool, Vec<(bool, bool, char, Vec<NCmd>)>), Async(Vec<NCmd>),
         }
         #[derive(Clone, Debug)]
         pub enum NLine { Cmds(Vec<NCmd>), SynErr }
         #[derive(Clone, Debug)]
-        pub struct NCase { pub seed: u64, pub errexit: bool, pub trap: bool, pub lines: Vec<NLine> }
+        pub struct NCase { pub seed: u64, pub errexit: bool, pub trap: Option<Vec<NLine>>, pub lines: Vec<NLine> }
 
         // ---- writer
         fn sx_opt(n: &Option<u32>) -> String { n.map(|n| format!(" {n}")).unwrap_or_default() }
@@ -838,7 +846,8 @@ hret0() { probe 7; return 0; probe 8; }\nhret1() { probe 7; return 1; probe 8; }
                 Ctl::Probe(m) => format!("(probe {m})"), Ctl::St(n) => format!("(st {n})"),
                 Ctl::Brk(n) => format!("(brk {n})"), Ctl::Cont(n) => format!("(cont {n})"),
                 Ctl::Ret(n) => format!("(ret{})", sx_opt(n)), Ctl::Exit(n) => format!("(exit{})", sx_opt(n)),
-                Ctl::SetE(b) => format!("(sete {})", *b as u8), Ctl::Tick(c, k) => format!("(tick {c} {k})"),
+                Ctl::SetE(b) => format!("(sete {})", *b as u8), Ctl::SetPf(b) => format!("(setpf {})", *b as u8),
+                Ctl::Tick(c, k) => format!("(tick {c} {k})"),
             }
         }
         fn sx_list(v: &[NCmd]) -> String { v.iter().map(sx_ncmd).collect::<Vec<_>>().join(" ") }
@@ -859,16 +868,30 @@ hret0() { probe 7; return 0; probe 8; }\nhret1() { probe 7; return 1; probe 8; }
                     out
                 }
                 NCmd::Call(b) => format!("(call {})", sx_list(b)),
+                NCmd::Pipe(b) => format!("(pipe {})", sx_list(b)),
+                NCmd::For(w, ro, n, b) => format!("(for {} {} {n} {})", *w as u8, *ro as u8, sx_list(b)),
+                NCmd::Case(se, items) => {
+                    let mut out = format!("(case {}", *se as u8);
+                    for (m, e, k, b) in items {
+                        out.push_str(&format!(" ({} {} {k}{}{})", *m as u8, *e as u8, if b.is_empty() { "" } else { " " }, sx_list(b)));
+                    }
+                    out.push(')');
+                    out
+                }
+                NCmd::Async(b) => format!("(async {})", sx_list(b)),
             }
         }
+        fn sx_line(l: &NLine) -> String {
+            match l { NLine::SynErr => "(synerr)".into(), NLine::Cmds(v) => format!("(L {})", sx_list(v)) }
+        }
         pub fn sx_case(c: &NCase) -> String {
-            let mut out = format!("nc {} ({} {})", c.seed, c.errexit as u8, c.trap as u8);
-            for l in &c.lines {
-                match l {
-                    NLine::SynErr => out.push_str(" (synerr)"),
-                    NLine::Cmds(v) => out.push_str(&format!(" (L {})", sx_list(v))),
-                }
-            }
+            let trap = match &c.trap {
+                None => "0".to_string(),
+                Some(ls) if ls.len() == 1 && sx_line(&ls[0]) == "(L (ctl (probe 99)))" => "1".to_string(),
+                Some(ls) => format!("(A {})", ls.iter().map(sx_line).collect::<Vec<_>>().join(" ")),
+            };
+            let mut out = format!("nc {} ({} {})", c.seed, c.errexit as u8, trap);
+            for l in &c.lines { out.push(' '); out.push_str(&sx_line(l)); }
             out
         }
 
@@ -881,6 +904,7 @@ hret0() { probe 7; return 0; probe 8; }\nhret1() { probe 7; return 1; probe 8; }
                 ("ret", 0) => Some(Ctl::Ret(None)), ("ret", 1) => Some(Ctl::Ret(Some(num(&r[0])?))),
                 ("exit", 0) => Some(Ctl::Exit(None)), ("exit", 1) => Some(Ctl::Exit(Some(num(&r[0])?))),
                 ("sete", 1) => Some(Ctl::SetE(num(&r[0])? != 0)),
+                ("setpf", 1) => Some(Ctl::SetPf(num(&r[0])? != 0)),
                 ("tick", 2) => Some(Ctl::Tick(num(&r[0])?, num(&r[1])?)),
                 _ => None,
             }
@@ -910,8 +934,26 @@ hret0() { probe 7; return 0; probe 8; }\nhret1() { probe 7; return 1; probe 8; }
                     Some(NCmd::Ao(Box::new(to_ncmd(&r[0])?), rest))
                 }
                 "call" => Some(NCmd::Call(to_list(r)?)),
+                "pipe" => Some(NCmd::Pipe(to_list(r)?)),
+                "for" if r.len() >= 3 => Some(NCmd::For(num(&r[0])? != 0, num(&r[1])? != 0, num(&r[2])?, to_list(&r[3..])?)),
+                "case" if !r.is_empty() => {
+                    let mut items = vec![];
+                    for it in &r[1..] {
+                        let Sx::L(v) = it else { return None };
+                        if v.len() < 3 { return None; }
+                        let k = atom(&v[2])?.chars().next()?;
+                        if !"bfc".contains(k) { return None; }
+                        items.push((num(&v[0])? != 0, num(&v[1])? != 0, k, to_list(&v[3..])?));
+                    }
+                    Some(NCmd::Case(num(&r[0])? != 0, items))
+                }
+                "async" => Some(NCmd::Async(to_list(r)?)),
                 _ => None,
             }
+        }
+        fn to_line(x: &Sx) -> Option<NLine> {
+            let (h, r) = head(x)?;
+            match h { "synerr" => Some(NLine::SynErr), "L" => Some(NLine::Cmds(to_list(r)?)), _ => None }
         }
         pub fn parse_case(case: &str) -> Option<NCase> {
             let t = tokenize(case);
@@ -921,17 +963,18 @@ hret0() { probe 7; return 0; probe 8; }\nhret1() { probe 7; return 1; probe 8; }
             let flags = parse_sx(&t, &mut i)?;
             let Sx::L(f) = &flags else { return None };
             if f.len() != 2 { return None; }
+            let trap = match &f[1] {
+                Sx::A(a) if a == "0" => None,
+                Sx::A(a) if a == "1" => Some(vec![NLine::Cmds(vec![NCmd::Ctl(Ctl::Probe(99))])]),
+                Sx::L(v) if v.first().and_then(atom) == Some("A") => Some(v[1..].iter().map(to_line).collect::<Option<Vec<_>>>()?),
+                _ => return None,
+            };
             let mut lines = vec![];
             while i < t.len() {
                 let x = parse_sx(&t, &mut i)?;
-                let (h, r) = head(&x)?;
-                match h {
-                    "synerr" => lines.push(NLine::SynErr),
-                    "L" => lines.push(NLine::Cmds(to_list(r)?)),
-                    _ => return None,
-                }
+                lines.push(to_line(&x)?);
             }
-            Some(NCase { seed, errexit: num(&f[0])? != 0, trap: num(&f[1])? != 0, lines })
+            Some(NCase { seed, errexit: num(&f[0])? != 0, trap, lines })
         }
 
         // ---- renderer
@@ -946,6 +989,7 @@ hret0() { probe 7; return 0; probe 8; }\nhret1() { probe 7; return 1; probe 8; }
                     Ctl::Ret(n) => match n { Some(n) => format!("return {n}"), None => "return".into() },
                     Ctl::Exit(n) => match n { Some(n) => format!("exit {n}"), None => "exit".into() },
                     Ctl::SetE(b) => if *b { self.r.pick(&["set -e", "set -o errexit"]).into() } else { self.r.pick(&["set +e", "set +o errexit"]).into() },
+                    Ctl::SetPf(b) => if *b { "set -o pipefail".into() } else { "set +o pipefail".into() },
                     Ctl::Tick(c, k) => format!("tick {c} {k}"),
                 }
             }
@@ -987,6 +1031,30 @@ hret0() { probe 7; return 0; probe 8; }\nhret1() { probe 7; return 1; probe 8; }
                         self.funcs.push(format!("{name}() {{ {body}; }}\n"));
                         name
                     }
+                    NCmd::Pipe(b) => b.iter().map(|n| self.ncmd(n)).collect::<Vec<_>>().join(" | "),
+                    NCmd::For(w, ro, n, b) => {
+                        let mut words: Vec<String> = (0..*n).map(|k| format!("w{k}")).collect();
+                        if *w { words.insert(self.r.rng.below(words.len() + 1), "${unset_u?}".into()); }
+                        let body = self.list(b);
+                        format!("for {} in {}; do {body}; done", if *ro { "ro" } else { "v" }, words.join(" "))
+                    }
+                    NCmd::Case(se, items) => {
+                        let mut out = format!("case {} in ", if *se { "${unset_u?}" } else { "x" });
+                        for (m, e, k, b) in items {
+                            let pat = match (*m, *e) {
+                                (true, false) => *self.r.rng.pick(&["x", "y|x", "\"x\"", "?"]),
+                                (false, false) => *self.r.rng.pick(&["y", "y|z", "xx"]),
+                                (true, true) => "${unset_u?}|x",
+                                (false, true) => "y|${unset_u?}",
+                            };
+                            let body = self.list(b);
+                            let cont = match k { 'b' => ";;", 'f' => ";&", _ => ";;&" };
+                            out.push_str(&format!("({pat}) {body} {cont} "));
+                        }
+                        out.push_str("esac");
+                        out
+                    }
+                    NCmd::Async(b) => format!("{{ {}; }} & wait", self.list(b)),
                 }
             }
         }
@@ -999,11 +1067,22 @@ hret0() { probe 7; return 0; probe 8; }\nhret1() { probe 7; return 1; probe 8; }
                     NLine::Cmds(v) => { body.push_str(&r.list(v)); body.push('\n'); }
                 }
             }
+            let trap_text = c.trap.as_ref().map(|ls| {
+                let mut text = String::new();
+                for l in ls {
+                    match l {
+                        NLine::SynErr => text.push_str(r.r.pick(&["fi\n", ")\n", "done\n"])),
+                        NLine::Cmds(v) => { text.push_str(&r.list(v)); text.push('\n'); }
+                    }
+                }
+                assert!(!text.contains('\''));
+                text
+            });
             // every function is defined before the first line of the script runs
             let mut out = String::from(PROLOGUE);
             for f in &r.funcs { out.push_str(f); }
             if c.errexit { out.push_str(r.r.pick(&["set -e\n", "set -o errexit\n"])); }
-            if c.trap { out.push_str("trap 'probe 99' EXIT\n"); }
+            if let Some(text) = trap_text { out.push_str(&format!("trap '{}' EXIT\n", text.trim_end())); }
             out.push_str(&body);
             (out, r.r.files)
         }
@@ -1027,7 +1106,8 @@ hret0() { probe 7; return 0; probe 8; }\nhret1() { probe 7; return 1; probe 8; }
                         else { NCmd::Ctl(Ctl::St(self.g.status())) }
                     }
                     91..=93 => NCmd::Ctl(Ctl::Exit(*self.g.rng.pick(&[None, Some(0), Some(1), Some(4)]))),
-                    _ => NCmd::Ctl(Ctl::SetE(self.g.rng.chance(1, 2))),
+                    94..=97 => NCmd::Ctl(Ctl::SetE(self.g.rng.chance(1, 2))),
+                    _ => NCmd::Ctl(Ctl::SetPf(self.g.rng.chance(2, 3))),
                 }
             }
             fn list(&mut self, depth: u32, in_loop: bool, in_fn: bool, no_cont: bool) -> Vec<NCmd> {
@@ -1040,7 +1120,27 @@ hret0() { probe 7; return 0; probe 8; }\nhret1() { probe 7; return 1; probe 8; }
             fn operand(&mut self, depth: u32, in_loop: bool, in_fn: bool, no_cont: bool) -> NCmd {
                 loop {
                     let n = self.ncmd(depth, in_loop, in_fn, no_cont);
-                    if !matches!(n, NCmd::Ao(..) | NCmd::Neg(_)) { return n; }
+                    if !matches!(n, NCmd::Ao(..) | NCmd::Neg(_) | NCmd::Async(_)) { return n; }
+                }
+            }
+            /// a command that prints no probe: a stage of a pipeline other than the last (its output goes into the pipe)
+            fn quiet(&mut self, depth: u32) -> NCmd {
+                match self.g.rng.below(100) {
+                    0..=49 => loop {
+                        let c = self.g.simple();
+                        let ok = match &c.t {
+                            Target::Absent | Target::Ext(_) => true,
+                            Target::Fn(..) => false,
+                            Target::Bi(_, b) => matches!(b, Body::Res(_) | Body::Rep(_) | Body::DotMissing | Body::EvalSyn | Body::DotSyn | Body::Resd(..))
+                                || matches!(b, Body::Cmd(i) if matches!(**i, Body::Res(_) | Body::Rep(_) | Body::DotMissing)),
+                        };
+                        if ok { return NCmd::S(c); }
+                    },
+                    50..=69 => NCmd::Ctl(Ctl::St(self.g.status())),
+                    70..=79 => NCmd::Ctl(Ctl::Exit(*self.g.rng.pick(&[None, Some(0), Some(1), Some(4)]))),
+                    80..=89 if depth > 0 => NCmd::Grp(Redirs::None, vec![self.quiet(depth - 1), self.quiet(depth - 1)]),
+                    90..=94 if depth > 0 => NCmd::Sub(vec![self.quiet(depth - 1)]),
+                    _ => NCmd::Ctl(Ctl::St(self.g.status())),
                 }
             }
             pub fn ncmd(&mut self, depth: u32, in_loop: bool, in_fn: bool, no_cont: bool) -> NCmd {
@@ -1048,7 +1148,8 @@ hret0() { probe 7; return 0; probe 8; }\nhret1() { probe 7; return 1; probe 8; }
                 if depth == 0 || self.budget <= 0 || self.g.rng.chance(1, 4) { return self.leaf(in_loop, in_fn, no_cont); }
                 let d = depth - 1;
                 match self.g.rng.below(100) {
-                    0..=15 => {
+                    11..=15 => NCmd::Call(self.list(d, in_loop, true, no_cont)),
+                    0..=10 => {
                         let r = match self.g.rng.below(10) { 0..=5 => Redirs::None, 6 => Redirs::Ok, 7 => Redirs::Cs(self.g.status()), 8 => Redirs::Err, _ => Redirs::XErr };
                         NCmd::Grp(r, self.list(d, in_loop, in_fn, no_cont))
                     }
@@ -1072,20 +1173,60 @@ hret0() { probe 7; return 0; probe 8; }\nhret1() { probe 7; return 1; probe 8; }
                         let b = self.list(d, true, in_fn, no_cont);
                         NCmd::Loop(until, c, b)
                     }
-                    58..=67 => NCmd::Neg(Box::new(self.operand(d, in_loop, in_fn, no_cont))),
-                    68..=84 => {
+                    58..=63 => NCmd::Neg(Box::new(self.operand(d, in_loop, in_fn, no_cont))),
+                    64..=74 => {
                         let f = if self.g.rng.chance(1, 4) { NCmd::Neg(Box::new(self.operand(d, in_loop, in_fn, no_cont))) } else { self.operand(d, in_loop, in_fn, no_cont) };
                         let mut rest = vec![];
                         let n = self.g.rng.below(3);   // 0: an and-or list of one pipeline
                         for _ in 0..n { rest.push((self.g.rng.chance(1, 2), self.operand(d, in_loop, in_fn, no_cont))); }
                         NCmd::Ao(Box::new(f), rest)
                     }
+                    75..=80 => {
+                        // a pipeline: only the last command may print probes
+                        let mut v = vec![self.quiet(d)];
+                        if self.g.rng.chance(1, 3) { v.push(self.quiet(d)); }
+                        let last = loop {
+                            let n = self.ncmd(d, false, in_fn, no_cont);
+                            if !matches!(n, NCmd::Ao(..) | NCmd::Neg(_) | NCmd::Async(_) | NCmd::Pipe(_)) { break n; }
+                        };
+                        v.push(last);
+                        NCmd::Pipe(v)
+                    }
+                    81..=85 => {
+                        let (w, ro) = match self.g.rng.below(10) { 0 | 1 => (true, false), 2 | 3 => (false, true), 4 => (true, true), _ => (false, false) };
+                        NCmd::For(w, ro, self.g.rng.below(3) as u32, self.list(d, true, in_fn, no_cont))
+                    }
+                    86..=90 => {
+                        let se = self.g.rng.chance(1, 8);
+                        let mut items = vec![];
+                        for _ in 0..(1 + self.g.rng.below(3)) {
+                            let m = self.g.rng.chance(1, 2);
+                            let e = self.g.rng.chance(1, 6);
+                            let k = *self.g.rng.pick(&['b', 'b', 'f', 'c']);
+                            let b = if self.g.rng.chance(1, 6) { vec![] } else { self.list(d, in_loop, in_fn, no_cont) };
+                            items.push((m, e, k, b));
+                        }
+                        NCmd::Case(se, items)
+                    }
+                    91..=94 => NCmd::Async(self.list(d, false, in_fn, no_cont)),
                     _ => NCmd::Call(self.list(d, in_loop, true, no_cont)),
                 }
             }
             pub fn case(&mut self, seed: u64, depth: u32) -> NCase {
                 let errexit = self.g.rng.chance(1, 2);
-                let trap = self.g.rng.chance(1, 2);
+                let p99 = NLine::Cmds(vec![NCmd::Ctl(Ctl::Probe(99))]);
+                let trap = match self.g.rng.below(8) {
+                    0..=3 => None,
+                    4 | 5 => Some(vec![p99]),
+                    6 => {
+                        // an action with commands of its own (no `eval '…'` inside the quoted text)
+                        self.g.depth += 1;
+                        let l = self.list(1, false, false, false);
+                        self.g.depth -= 1;
+                        Some(vec![p99, NLine::Cmds(l)])
+                    }
+                    _ => Some(vec![p99, NLine::SynErr, NLine::Cmds(vec![NCmd::Ctl(Ctl::Probe(98))])]),
+                };
                 let nlines = 1 + self.g.rng.below(2);
                 let mut lines = vec![];
                 for k in 0..nlines {
@@ -1126,7 +1267,12 @@ hret0() { probe 7; return 0; probe 8; }\nhret1() { probe 7; return 1; probe 8; }
                 NCmd::If(c, _, _) | NCmd::Loop(_, c, _) => { *exempt = true; first_leaf(c.first()?, exempt) }
                 NCmd::Neg(c) => { *exempt = true; first_leaf(c, exempt) }
                 NCmd::Ao(f, rest) => { if !rest.is_empty() { *exempt = true; } first_leaf(f, exempt) }
-                NCmd::Sub(_) | NCmd::Ctl(_) => None,
+                NCmd::For(false, false, n, b) if *n > 0 => first_leaf(b.first()?, exempt),
+                NCmd::Case(false, items) => match items.first()? {
+                    (true, false, _, b) => first_leaf(b.first()?, exempt),
+                    _ => None,
+                },
+                NCmd::Sub(_) | NCmd::Ctl(_) | NCmd::Pipe(_) | NCmd::For(..) | NCmd::Case(..) | NCmd::Async(_) => None,
             }
         }
         fn markers(n: &NCmd, out: &mut Vec<u32>) {
@@ -1134,7 +1280,8 @@ hret0() { probe 7; return 0; probe 8; }\nhret1() { probe 7; return 1; probe 8; }
                 NCmd::S(c) => markers_simple(c, out),
                 NCmd::Ctl(Ctl::Probe(m)) => out.push(*m),
                 NCmd::Ctl(_) => {}
-                NCmd::Grp(_, b) | NCmd::Sub(b) | NCmd::Call(b) => b.iter().for_each(|n| markers(n, out)),
+                NCmd::Grp(_, b) | NCmd::Sub(b) | NCmd::Call(b) | NCmd::Pipe(b) | NCmd::Async(b) | NCmd::For(_, _, _, b) => b.iter().for_each(|n| markers(n, out)),
+                NCmd::Case(_, items) => items.iter().for_each(|(_, _, _, b)| b.iter().for_each(|n| markers(n, out))),
                 NCmd::If(c, b, e) => {
                     c.iter().chain(b.iter()).for_each(|n| markers(n, out));
                     if let Some(e) = e { e.iter().for_each(|n| markers(n, out)); }
@@ -1156,14 +1303,32 @@ hret0() { probe 7; return 0; probe 8; }\nhret1() { probe 7; return 1; probe 8; }
             let trace = obs.strip_prefix("trace=").and_then(|s| s.split(' ').next()).unwrap_or("");
             let entries: Vec<&str> = trace.split(',').filter(|e| !e.is_empty()).collect();
             let mut verdict = "-".to_string();
-            if c.trap {
+            let mut script_markers = vec![];
+            for l in &c.lines {
+                if let NLine::Cmds(v) = l { for n in v { markers(n, &mut script_markers); } }
+            }
+            if let Some(action) = &c.trap {
                 let n = entries.iter().filter(|e| e.starts_with("99:")).count();
                 let aborted = obs.contains(" div=Abort");
                 if aborted && n != 0 { return "FAIL:exit-trap-ran-after-abort".into(); }
                 if !aborted && n != 1 { return format!("FAIL:exit-trap-ran-{n}-times"); }
-                if !aborted && !entries.last().unwrap().starts_with("99:") { return "FAIL:commands-ran-after-exit-trap".into(); }
+                if !aborted {
+                    // nothing of the script runs after the action has started
+                    let at = entries.iter().position(|e| e.starts_with("99:")).unwrap();
+                    for e in &entries[at + 1..] {
+                        let m: u32 = e.split(':').next().and_then(|m| m.parse().ok()).unwrap_or(0);
+                        if script_markers.contains(&m) { return format!("FAIL:script-ran-after-exit-trap:probe-{m}"); }
+                    }
+                    // a line of the action that does not parse ends the action and the exit status is 2 (F23)
+                    // (when `probe 99` saw `$? = 0`: with a non-zero `$?` under errexit the probe itself ends the action)
+                    if action.iter().any(|l| matches!(l, NLine::SynErr)) && entries[at] == "99:0" {
+                        if entries.iter().any(|e| e.starts_with("98:")) { return "FAIL:action-ran-past-its-syntax-error".into(); }
+                        if !obs.ends_with(" status=2") { return "FAIL:syntax-error-in-exit-action:expected-status-2".into(); }
+                    }
+                }
                 verdict = "ok".into();
             }
+            let plain_trap = match &c.trap { None => true, Some(a) => a.len() == 1 };
             let Some(NLine::Cmds(first)) = c.lines.first() else { return verdict };
             let Some(n) = first.first() else { return verdict };
             let mut exempt = false;
@@ -1177,17 +1342,16 @@ hret0() { probe 7; return 0; probe 8; }\nhret1() { probe 7; return 1; probe 8; }
                     _ => return verdict,
                 },
             };
-            let mut script_markers = vec![];
-            for l in &c.lines {
-                if let NLine::Cmds(v) = l { for n in v { markers(n, &mut script_markers); } }
-            }
             for e in &entries {
                 let m: u32 = e.split(':').next().and_then(|m| m.parse().ok()).unwrap_or(0);
                 if script_markers.contains(&m) {
                     return format!("FAIL:ran-after-{class}-at-depth:probe-{m}");
                 }
             }
-            if !obs.ends_with(&format!(" status={st}")) {
+            if !obs.contains(&format!(" pre={st} ")) {
+                return format!("FAIL:status-before-exit-trap-after-{class}-at-depth:expected-{st}");
+            }
+            if plain_trap && !obs.ends_with(&format!(" status={st}")) {
                 return format!("FAIL:exit-status-after-{class}-at-depth:expected-{st}");
             }
             "ok".into()
